@@ -38,7 +38,7 @@ pub const PATTERNS: [&str; 24] = [
     "?a",
 ];
 
-pub const MULTI: [&str; 21] = [
+pub const MULTI: [&str; 23] = [
     "?s == (b ?a ?c), ?a == (var $0), ?c == (var $1)",
     "?a == (var $0), ?c == (var $1), ?s == (b ?a ?c)",
     "?s == (b ?a ?c), ?a == (h $0), ?c == (f $1 $0)",
@@ -62,6 +62,10 @@ pub const MULTI: [&str; 21] = [
     // DISTINCT slots, then a node that would need those two slots to be equal
     "?p == (b ?a ?c), ?r == (b ?b ?d), ?q == (b ?a ?b), ?t == (b ?a ?b)",
     "?p == (u ?a), ?r == (u ?b), ?q == (b ?a ?b), ?t == (b ?a ?b)",
+    // a ternary node whose children share a slot: the first two children are already bound (one through a flexible
+    // slot, one through a pattern slot), the third binds a new variable
+    "?a == (var $0), ?b == (u ?z), ?o == (k ?z ?a ?w)",
+    "?b == (u ?z), ?a == (var $0), ?o == (k ?a ?z ?w)",
 ];
 
 fn spaces(tier: Tier) -> Vec<Space> {
@@ -78,6 +82,8 @@ fn spaces(tier: Tier) -> Vec<Space> {
             Space { alpha: "SAME", depth: 3 },
             Space { alpha: "SELFX", depth: 2 },
             Space { alpha: "SELFX", depth: 3 },
+            Space { alpha: "TERN", depth: 2 },
+            Space { alpha: "TERN", depth: 3 },
             Space { alpha: "MICRO", depth: 3 },
             Space { alpha: "A1", depth: 2 },
             Space { alpha: "CORE", depth: 3 },
@@ -95,6 +101,8 @@ fn spaces(tier: Tier) -> Vec<Space> {
             Space { alpha: "SAME", depth: 3 },
             Space { alpha: "SELFX", depth: 2 },
             Space { alpha: "SELFX", depth: 3 },
+            Space { alpha: "TERN", depth: 2 },
+            Space { alpha: "TERN", depth: 3 },
             Space { alpha: "CORE", depth: 3 },
             Space { alpha: "A0", depth: 3 },
             Space { alpha: "MICRO", depth: 4 },
@@ -337,7 +345,26 @@ fn run(hist: &[Op], gen_level: u8) -> Result<(Vec<Fail>, u64, u64, u64, u64), St
         goals |= 2;
     }
     let generated_single = if gen_level > 0 { generated_single_pool(gen_level) } else { std::rc::Rc::new(Vec::new()) };
-    for ps in PATTERNS.iter().copied().chain(generated_single.iter().map(|s| s.as_str())) {
+    // the hand-picked pool a second time with its free slots spelled like INTERNAL slots of this e-graph (class
+    // parameters print as $f<n> and parse back to the same slot): slots the matcher invents for positions the pattern
+    // does not cover must not collide with them
+    let mut internal: Vec<Slot> = Vec::new();
+    for i in eg.ids() {
+        for s in eg.slots(i) {
+            if !internal.contains(&s) {
+                internal.push(s);
+            }
+        }
+    }
+    internal.sort();
+    let respelled: Vec<String> = if internal.len() >= 2 {
+        let (a, b) = (internal[internal.len() - 1].to_string(), internal[0].to_string());
+        PATTERNS.iter().chain(MULTI.iter()).filter(|p| p.contains("$0") || p.contains("$1")).map(|p| p.replace("$0", &a).replace("$1", &b).replace("$2", "$92").replace("$3", "$93")).collect()
+    } else {
+        Vec::new()
+    };
+    let n_single_respelled = PATTERNS.iter().filter(|p| p.contains("$0") || p.contains("$1")).count();
+    for ps in PATTERNS.iter().copied().chain(generated_single.iter().map(|s| s.as_str())).chain(respelled.iter().take(if internal.len() >= 2 { n_single_respelled } else { 0 }).map(|s| s.as_str())) {
         let pat: Pattern<Sym> = Pattern::parse(ps).expect("pattern pool parses");
         let mut vars = BTreeSet::new();
         pvars(&pat, &mut vars);
@@ -370,7 +397,7 @@ fn run(hist: &[Op], gen_level: u8) -> Result<(Vec<Fail>, u64, u64, u64, u64), St
         }
     }
     let generated = if gen_level > 0 { generated_pool(gen_level) } else { std::rc::Rc::new(Vec::new()) };
-    for ps in MULTI.iter().copied().chain(generated.iter().map(|s| s.as_str())) {
+    for ps in MULTI.iter().copied().chain(generated.iter().map(|s| s.as_str())).chain(respelled.iter().skip(n_single_respelled).map(|s| s.as_str())) {
         let mp: MultiPattern<Sym> = MultiPattern::parse(ps).expect("multi-pattern pool parses");
         // the equations, re-parsed on the harness side
         let eqs: Vec<(String, Sym, Vec<String>)> = ps
@@ -426,7 +453,7 @@ fn run(hist: &[Op], gen_level: u8) -> Result<(Vec<Fail>, u64, u64, u64, u64), St
 
 /// which segments are also matched against the GENERATED multi-pattern pool
 fn gen_level_for(tier: Tier, segname: &str) -> u8 {
-    let small = ["MICRO^2", "SAME^2", "SHARE^2"];
+    let small = ["MICRO^2", "SAME^2", "SHARE^2", "TERN^2"];
     let medium = ["SAME^3", "MICRO^3", "CORE^2", "BIND^1"];
     match tier {
         Tier::Quick => {
